@@ -21,9 +21,11 @@ type route struct {
 	// exprBody: the copy lives inside a single-expression body (arrow function): snapshots and
 	// mutations are printed as elements of one list expression instead of statements
 	exprBody bool
-	// late: in the quick tier the route is enumerated alone and as the FIRST link of a chain; as the
-	// second link of a chain only in the thorough tier (keeps the quick chain wave inside its budget)
-	late bool
+	// ext: route of the extension families (further stores, static properties, closures, methods). In the
+	// quick tier a chain that contains an ext route gets one representative mutation per class and name
+	// (classReps) instead of all 23; thorough applies all.
+	// late: ext route that is the SECOND link of a chain only in the thorough tier.
+	ext, late bool
 	origin  func(u int) (setup, lv string)
 	// originBuild: the original lives where only the route's own code can build it (a static local);
 	// lv is then a read-only expression (a call), snapshotted but never mutated
@@ -164,7 +166,7 @@ func callRoute(name string, general bool, origin func(u int) (string, string), n
 // defining scope also snapshots around the call (P / F). Capturing needs a plain variable: after a
 // route whose copy is a property / element the chain is not applicable.
 func closureRoute(name string, arrow, capture bool, via string, late bool) route {
-	return route{name: name, general: true, scope: true, exprBody: arrow, late: late, apply: func(u int, live []string, src int) (string, string, []string) {
+	return route{name: name, general: true, scope: true, exprBody: arrow, late: late, ext: true, apply: func(u int, live []string, src int) (string, string, []string) {
 		if capture && baseVar(live[src]) != live[src] {
 			return "", "", nil
 		}
@@ -251,9 +253,9 @@ func routes() []route {
 		late(flat("spropstore", true, nil, func(u int, src string) (string, string) {
 			return fmt.Sprintf("SP::$q%d = %s;\n", u, src), fmt.Sprintf("SP::$q%d", u)
 		})),
-		flat("spropread", false, func(u int) (string, string) { return "", "SP::$o1" }, func(u int, src string) (string, string) {
+		ext(flat("spropread", false, func(u int) (string, string) { return "", "SP::$o1" }, func(u int, src string) (string, string) {
 			return fmt.Sprintf("$b%d = SP::$o1;\n", u), fmt.Sprintf("$b%d", u)
-		}),
+		})),
 		// the copy lives in a closure: by-value `use`, arrow-function capture, closure parameter
 		closureRoute("capuse", false, true, "call", false),
 		closureRoute("caparrow", true, true, "call", false),
@@ -308,7 +310,8 @@ func routes() []route {
 	}
 }
 
-func late(r route) route { r.late = true; return r }
+func late(r route) route { r.late, r.ext = true, true; return r }
+func ext(r route) route  { r.ext = true; return r }
 
 // controls: an explicit reference / a shared object handle — the write MUST show through.
 func controls() []route {
